@@ -789,7 +789,7 @@ def check(tier, seed):
     return c.finish(
         assumptions=["lock-step semantics of the collectives (MpiModel.run) stands for MPI; progress of the real runtime is observed by the watchdog only",
                      "boost::mpi::reduce combines along MpiModel.boost_reduce_tree (re-observed on every run for every P used); the theorems hold for every tree over the ranks",
-                     "stride: ceil((double) total / P) equals the integer ceiling for total < 2^53",
+                     "stride: ceil((double) total / P) equals the integer ceiling used by the model for total < 2^53: Properties_C04_stride.C04_stride_matches_model (binary64 division by Flocq; the C library's ceil is taken as the exact ceiling of its argument)",
                      "per-rank BFS root order and pointer order of edge descriptors are recovered from the run (ROOTS equal on all ranks is checked, EORD per rank is fed to the as-found model)",
                      "local tbb::parallel_reduce runs on one TBB thread in the exact comparison (= left-to-right fold); C04c is modulo the per-index search premise (MpiProofs3.signed_phase_premise)",
                      "double weights are integer multiples of a power of two, sums below 2^53; int weights with (m+4)*sum < 2^31, long long weights with (m+4)*sum < 2^63 (exact domain)",
